@@ -161,3 +161,29 @@ package mux
 //@   requires r.listener != nil
 //@   ensures @accepted_is_returned_or_closed: result0 == nil && conn != nil ==> conn.closed
 //@   ensures @error_means_no_connection: result1 != nil ==> result0 == nil
+
+// C10 (shutdown clause, establisher role): a connection that was dialled is either handed to the caller or closed -
+// also when the lifetime ends between the dial and the return (the provider closes what it is handed, see Start$2).
+//@ extern net.DialTimeout@(*establishingConnProvider).NewConnection$1
+//@   trusted net: a connection or an error, never both
+//@   ensures (result1 == nil) == (result0 != nil)
+//@   ensures result0 != nil ==> !result0.closed
+//@   assigns nothing
+//@ extern $p.tlsWrapper@(*establishingConnProvider).NewConnection$1(c)
+//@   trusted tls.Client / identity: wraps the connection (closing the wrapper closes it)
+//@   ensures result != nil && !result.closed
+//@   assigns nothing
+//@ contract (*establishingConnProvider).NewConnection$1
+//@   props C10
+//@   requires p != nil
+//@   ensures @dialled_or_error: (result == nil) == (client != nil)
+//@   ensures result == nil ==> !client.closed
+//@ extern backoff.ThrottleRetry@(*establishingConnProvider).NewConnection
+//@   trusted go.temporal.io/server/common/backoff: calls its first argument until it succeeds or the error is not retryable and returns the outcome of the last call (contract of the dial literal NewConnection$1)
+//@   ensures (result == nil) == (client != nil)
+//@   ensures client != nil ==> !client.closed
+//@   assigns client
+//@ contract (*establishingConnProvider).NewConnection
+//@   props C10
+//@   ensures @dialled_is_returned_or_closed: result0 == nil && client != nil ==> client.closed
+//@   ensures @error_means_no_connection: result1 != nil ==> result0 == nil
